@@ -3,6 +3,7 @@ GL_ALL = ('contracts.grouped_list', None)
 
 FCM = ('contracts.qualitative', None)
 TRANSFORM = ('contracts.transform', None)
+UNSEEN = ('contracts.unseen', None)
 VIAB = ('contracts.viability', None)
 CONV = ('contracts.conversion', None)
 REG_Q = ('contracts.regions', ['QualitativeDiscretizer._prepare_data@marker_loop'])
@@ -29,11 +30,11 @@ REGISTRY = {
                          'remaining leaders is the order they had), other features are untouched (get_labels / max assumed; three loops, ghost lemmas on the spec functions); BaseCarver._update_orders, checked against those two contracts, writes the chosen combination of one feature on its raw values, leaves every other feature alone and hands back label orders recomputed from the new values orders. BOUNDED: boundaries strictly '
                          'increasing with +inf last, ordinal groups are consecutive runs of the user ranking, categorical leaders in target-rate order, transform is a non-decreasing '
                          'right-closed step function on probes (boundaries, nextafter neighbours, midpoints, +-1e300), fitted carver groups contiguous.'),
- 'C04': dict(level='other', P=[('contracts.labels', None), ('contracts.type_discretizers', None), TRANSFORM], R=['rtc.battery_C04'],
-             explanation='PROVED: _get_labels_per_values builds, for every feature, a label table defined exactly on the known values in which all members of a group share one label, float labels are the rank of the group, a qualitative str label is the leader, and distinct groups get distinct labels (three nested loop invariants; get_labels assumed); type_discretizers.fit_feature groups every raw value under its string form (str / int / is_integer assumed symbols; string forms assumed pairwise distinct and not themselves raw values). BOUNDED: for every fitted object (all discretizer classes, carvers, objects rebuilt from JSON, re-indexed frames) and every training row the output is the label of '
+ 'C04': dict(level='other', P=[('contracts.labels', None), ('contracts.type_discretizers', None), TRANSFORM, ('contracts.unseen', ['transform_quantitative_feature'])], R=['rtc.battery_C04'],
+             explanation='PROVED: transform_quantitative_feature rewrites a quantitative column by numpy.select over one mask `column <= q` per non-missing leader q paired (as sets) with x_len copies of the label of q from the label table, missing rows get the label of the group holding the marker; _get_labels_per_values builds, for every feature, a label table defined exactly on the known values in which all members of a group share one label, float labels are the rank of the group, a qualitative str label is the leader, and distinct groups get distinct labels (three nested loop invariants; get_labels assumed); type_discretizers.fit_feature groups every raw value under its string form (str / int / is_integer assumed symbols; string forms assumed pairwise distinct and not themselves raw values). BOUNDED: for every fitted object (all discretizer classes, carvers, objects rebuilt from JSON, re-indexed frames) and every training row the output is the label of '
                          'the unique group containing the value; distinct groups have distinct labels; float labels are ranks; missing-value handling per dropna.'),
- 'C05': dict(level='other', P=[], R=['rtc.battery_C05'],
-             explanation='BOUNDED: transform of unseen data (finite numbers far outside / at the edges of the training range, unseen categories with and without default group, missing values '
+ 'C05': dict(level='other', P=[UNSEEN], R=['rtc.battery_C05'],
+             explanation='PROVED (engine P, all inputs): the final loop of BaseDiscretizer._check_new_values (REGION, entry state assumed) raises AssertionError EXACTLY when some qualitative feature still holds a value its fitted order does not know, so completing it means every remaining value is a known value (hence has a label: _get_labels_per_values, C04) and the fitted object is not written; transform_quantitative_feature raises AssertionError EXACTLY when the column holds missing values and the fitted order does not know the marker, and otherwise rewrites the column by numpy.select over one mask `column <= q` per NON-MISSING leader q, each with x_len copies of the label of q (the marker never becomes a boundary), the missing rows getting the label of the group the marker was merged into; pandas / numpy pieces are uninterpreted library symbols. BOUNDED: transform of unseen data (finite numbers far outside / at the edges of the training range, unseen categories with and without default group, missing values '
                          'where none were seen, empty and single-row frames) either raises AssertionError or returns fitted labels only; no other exception type.'),
  'C06': dict(level='other', P=[('contracts.serialization', None)], R=['rtc.battery_C06'],
              explanation='PROVED: the value converters of serialization.py (single value and list overloads): strings unchanged, non-finite numbers become the marker, finite numbers keep their value, the result is json-serialisable, and decoding the encoded value gives the value back on the domain {strings other than the marker, finite numbers, +inf} (numpy classification predicates assumed). BOUNDED: to_json is json-serialisable; the reloaded object gives the same transform output or the same rejection on train / dev / shifted / unseen / float32 frames, '
